@@ -406,7 +406,11 @@ static void record(const std::string &out, long nops, unsigned long long seed, i
         ev["hasTop"] = t != nullptr;
         tr.emit(ev);
     };
-    auto key = [&]() { return rng.below(10) == 0 ? rng.below(1000) : rng.below(keyRange); };
+    // two regimes, switched at every audit: few distinct keys (ties) / many distinct keys (every
+    // misplacement is visible)
+    bool wide = false;
+    auto key = [&]() { return wide || rng.below(10) == 0 ? rng.below(1000) : rng.below(keyRange); };
+    long nextAudit = 30 + rng.below(60);
     auto liveHandle = [&]() -> int {
         if (d.handle.empty())
             return -1;
@@ -417,6 +421,29 @@ static void record(const std::string &out, long nops, unsigned long long seed, i
     tr.emit(json{{"e", "Reset"}});
     for (long i = 0; i < nops; ++i)
     {
+        if (i == nextAudit)
+        {
+            // audit: pop everything (each pop is judged against the contract's bag), then refill to a
+            // random size so that interior removals also happen in heaps of four and more levels
+            while (!d.heap.empty())
+            {
+                auto *t = d.heap.top();
+                int u = t->data.uid, k = t->data.key;
+                d.heap.pop();
+                d.handle.erase(u);
+                obs(json{{"e", "Pop"}, {"id", u}, {"k", k}});
+            }
+            wide = !wide;
+            int m = 4 + rng.below(std::max(1, maxLive - 4));
+            for (int j = 0; j < m; ++j)
+            {
+                int k = key(), u = nextUid++;
+                d.heap.insert(Item{k, u});
+                d.handle[u] = d.inserted.back();
+                obs(json{{"e", "Insert"}, {"id", u}, {"k", k}});
+            }
+            nextAudit = i + 8 + rng.below(40);
+        }
         int op = rng.below(100);
         int live = (int)d.heap.size();
         if (op < 30 || live == 0)
@@ -576,11 +603,11 @@ int main(int argc, char **argv)
         std::string variant = argv[4];
         unsigned long long seed = vt::envSeed();
         if (variant == "less")
-            record<LessKey>(argv[2], nops, seed, 4, 24);
+            record<LessKey>(argv[2], nops, seed, 4, 40);
         else if (variant == "greater")
-            record<GreaterNeg>(argv[2], nops, seed + 1, 3, 40);
+            record<GreaterNeg>(argv[2], nops, seed + 1, 3, 64);
         else
-            record<TableLess>(argv[2], nops, seed + 2, 6, 12);
+            record<TableLess>(argv[2], nops, seed + 2, 6, 24);
         return 0;
     }
     fprintf(stderr, "usage: heap replay <graph> | heap record <out> <nops> <less|greater|table>\n");
